@@ -18,13 +18,25 @@ use std::{
     time::{Duration, Instant},
 };
 
-use actix_server::{verif as hv, Server, ServerHandle};
+#[cfg(not(verif_nohooks))]
+use actix_server::verif as hv;
+use actix_server::{Server, ServerHandle};
 use actix_service::{fn_factory, Service};
 use serde::{Deserialize, Serialize};
 use tokio::io::{AsyncRead, AsyncReadExt, AsyncWrite, AsyncWriteExt};
 use vcore::{CaseResult, Fail, Obs};
 
-use crate::l2::{ErrKind, LKind};
+use crate::kinds::{ErrKind, LKind};
+
+/// without the hooks there is no accept-error injection: the ops that need it are skipped
+#[cfg(verif_nohooks)]
+mod hv {
+    pub fn clear_injected(_fd: i32) {}
+    pub fn take_consumed_injections(_fd: i32) -> usize {
+        0
+    }
+    pub fn inject_accept_error(_fd: i32, _raw: Option<i32>, _kind: std::io::ErrorKind) {}
+}
 
 const BOUND: Duration = Duration::from_secs(5);
 
@@ -739,6 +751,9 @@ fn run_once_inner(c: &Case, prop: Prop) -> Result<Obs, (Fail, bool)> {
                 r.pause_settled = false;
             }
             Op::Inject { l, kind } => {
+                if cfg!(verif_nohooks) {
+                    continue;
+                }
                 let l = vcore::pick(l, nl);
                 let (raw, k) = match kind {
                     ErrKind::Aborted => (None, std::io::ErrorKind::ConnectionAborted),
@@ -871,6 +886,9 @@ fn run_once_inner(c: &Case, prop: Prop) -> Result<Obs, (Fail, bool)> {
                 r.clients.push(cl);
             }
             Op::BackoffBusy { l } => {
+                if cfg!(verif_nohooks) {
+                    continue;
+                }
                 r.refresh();
                 if r.paused || r.clients.len() >= 11 || r.held() >= r.workers * r.limit || r.waiting() > 0 {
                     continue;
